@@ -148,7 +148,7 @@ def q_call(rng, sp, malformed):
     if k == "from":
         return ["from", source(rng)]
     if k == "with":
-        return ["with", rng.choice(["w1", "w2", "w3"])]
+        return ["with", rng.choice(["w1", "w2", "w3", "w1", "w2", "w3", "a2", "b2"])]
     if k in ("into", "update"):
         return [k, ["tab", rng.choice(NAMES), None, None]]
     if k == "delete":
